@@ -12,6 +12,7 @@ pub fn dispatch(op: &str, req: &Value) -> Value {
         "pep_convert" => pep_convert(req),
         "render" => render(req),
         "preset_schema" => preset_schema(req),
+        "bump" => bump(req),
         _ => json!({"error": format!("unknown op {op}")}),
     }
 }
@@ -188,5 +189,45 @@ fn preset_schema(req: &Value) -> Value {
     match zerv::schema::ZervSchemaPreset::from_str(&kebab) {
         Ok(p) => { let s = p.schema_with_zerv(&vars_of(&req["vars"])); json!({"schema": format!("{:?}", s)}) }
         Err(e) => json!({"error": e.to_string()}),
+    }
+}
+
+pub fn vars_to_json(z: &ZervVars) -> Value {
+    let pre = z.pre_release.as_ref().map(|p| json!({"label": match p.label { PreReleaseLabel::Alpha => "alpha", PreReleaseLabel::Beta => "beta", PreReleaseLabel::Rc => "rc" }, "number": p.number}));
+    json!({"major": z.major, "minor": z.minor, "patch": z.patch, "epoch": z.epoch, "post": z.post, "dev": z.dev, "pre_release": pre,
+        "distance": z.distance, "dirty": z.dirty, "bumped_timestamp": z.bumped_timestamp})
+}
+
+fn strs(v: &Value) -> Vec<String> {
+    v.as_array().map(|a| a.iter().map(|x| x.as_str().unwrap().to_string()).collect()).unwrap_or_default()
+}
+
+fn bump(req: &Value) -> Value {
+    use zerv::cli::version::args::{ResolvedArgs, ResolvedBumps, ResolvedOverrides, VersionArgs};
+    let sch = &req["schema"];
+    let schema = match ZervSchema::new(comps(&sch[0]), comps(&sch[1]), comps(&sch[2])) {
+        Ok(s) => s,
+        Err(e) => return json!({"error": format!("schema: {e}")}),
+    };
+    let mut zerv = Zerv { schema, vars: vars_of(&req["vars"]) };
+    let o = &req["overrides"];
+    let b = &req["bumps"];
+    let u = |v: &Value| v.as_u64().map(|x| x as u32);
+    let mut ov = ResolvedOverrides::default();
+    ov.major = u(&o["major"]); ov.minor = u(&o["minor"]); ov.patch = u(&o["patch"]); ov.epoch = u(&o["epoch"]);
+    ov.post = u(&o["post"]); ov.dev = u(&o["dev"]); ov.pre_release_num = u(&o["pre_release_num"]);
+    ov.pre_release_label = req["ov_label"].as_str().map(|s| s.to_string());
+    ov.core = strs(&req["ov_core"]); ov.extra_core = strs(&req["ov_extra_core"]); ov.build = strs(&req["ov_build"]);
+    let mut bp = ResolvedBumps::default();
+    let bb = |v: &Value| v.as_u64().map(|x| Some(x as u32));
+    bp.bump_major = bb(&b["major"]); bp.bump_minor = bb(&b["minor"]); bp.bump_patch = bb(&b["patch"]); bp.bump_epoch = bb(&b["epoch"]);
+    bp.bump_post = bb(&b["post"]); bp.bump_dev = bb(&b["dev"]); bp.bump_pre_release_num = bb(&b["pre_release_num"]);
+    bp.bump_pre_release_label = req["bp_label"].as_str().map(|s| s.to_string());
+    bp.bump_core = strs(&req["bp_core"]); bp.bump_extra_core = strs(&req["bp_extra_core"]); bp.bump_build = strs(&req["bp_build"]);
+    let va = VersionArgs::default();
+    let args = ResolvedArgs { overrides: ov, bumps: bp, input: va.input.clone(), output: va.output.clone() };
+    match zerv.apply_component_processing(&args) {
+        Ok(()) => json!({"ok": true, "vars": vars_to_json(&zerv.vars), "schema": format!("{:?}", zerv.schema)}),
+        Err(e) => json!({"ok": false, "err": e.to_string()}),
     }
 }
